@@ -145,9 +145,9 @@ PROPS["C20"]["rules"] = PROPS["C20"]["rules"] + [rules_bounds.rule_F2_strings]
 PROPS["C05"]["rules"] = PROPS["C05"]["rules"] + [_layouts("comp-header")]
 
 PROPS["C07"] = {
-    "rules": [_layouts("VH"), (lambda ctx: rules_dd.rule_F3c(ctx, {"vdata_desc"})), rules_limits.rule_F9b, rules_limits.rule_F9c, rules_bounds.rule_F2_strings],
+    "rules": [rules_bounds.rule_F2_globals, _layouts("VH"), (lambda ctx: rules_dd.rule_F3c(ctx, {"vdata_desc"})), rules_limits.rule_F9b, rules_limits.rule_F9c, rules_bounds.rule_F2_strings],
     "level": "other",
-    "explanation": "Decides structural necessary conditions of 'a Vdata returns the records written': (F1) vpackvs writes and vunpackvs reads the Vdata header (VH) exactly as the frozen format specification says — field widths, order, loops over fields, the optional flags/attribute tail and the version/more pair re-read from len-5; (F9b/F9c) every value that ends up in a 16-bit field of that record (field count, sizes, offsets, orders, name lengths, record size) is bounded where it is computed, no narrow counter is incremented without a limit test; (F2s) every copy into the fixed-size vsname/vsclass buffers is bounded by the buffer. Not decided: VSread/VSwrite gather/scatter (cases A-E), interlace conversion and seek arithmetic — all value-level.",
+    "explanation": "Decides structural necessary conditions of 'a Vdata returns the records written': (F1) vpackvs writes and vunpackvs reads the Vdata header (VH) exactly as the frozen format specification says — field widths, order, loops over fields, the optional flags/attribute tail and the version/more pair re-read from len-5; (F9b/F9c) every value that ends up in a 16-bit field of that record (field count, sizes, offsets, orders, name lengths, record size) is bounded where it is computed, no narrow counter is incremented without a limit test; (F2s) every copy into the fixed-size vsname/vsclass buffers is bounded by the buffer. (F2g) a loop variable or counter bounded only by a run-time count never indexes a fixed-size static table (VSfdefine compared user fields with the reserved-name table). Not decided: VSread/VSwrite gather/scatter (cases A-E), interlace conversion and seek arithmetic — all value-level.",
     "rule_text": "instances = rows of the VH layout table (writer, readers), increments of narrow record fields, ENCODE sites of vpackvs/vpackvg and narrowing stores into their fields, copies into fixed array fields",
     "trusted": [CLANG, CDB, "the frozen VH layout (DESIGN Appendix A)"],
     "assumptions": ["the spec table is the transcription of the published format"],
